@@ -1034,10 +1034,11 @@ Section Theorems.
           destruct (Qeq_bool (lam * s_px S) 0) eqn:E'; auto.
           apply Qeq_bool_iff in E'. apply Qmult_integral in E'. tauto. }
       rewrite Eb. destruct (Qeq_bool (s_px S) 0); [reflexivity|].
-      now rewrite Hd. }
+      unfold delta_rescale in Hd. rewrite (Hd (l_feat L) (s_px S) (fst ev)).
+      reflexivity. }
     rewrite Ex, Ed. apply omul_compat; [|apply oqeq_refl].
     unfold emod_factor, rescale_setup, cube. simpl. field. repeat split; auto.
-    apply pos_neq0, (ok_fr L HL). apply pos_neq0, (ok_visc L HL).
+    apply pos_neq0, (ok_visc L HL). apply pos_neq0, (ok_fr L HL).
   Qed.
 
   Theorem geometric_rescale_invariant L S v lam evs :
@@ -1108,7 +1109,6 @@ Section Theorems.
     apply F2_single in HF.
     destruct (find_tri (spec_point L S ev) (spec_nn L) (spec_tris L)); simpl in HF;
       destruct a; try contradiction; split; intros; try discriminate; auto.
-    congruence.
   Qed.
 
   (* a finite result is the scaled barycentric interpolation in a triangle
@@ -1180,3 +1180,104 @@ Proof.
   - apply interp_at_node_b; auto.
   - apply interp_at_node_c; auto.
 Qed.
+
+(* ------------------------------------------------------------------ *)
+(* non-vacuity: a concrete table, triangulation, set-up and events      *)
+(* ------------------------------------------------------------------ *)
+Definition ex_lut : lut :=
+  mkLut Area 20 (4 # 100) 15
+        [ (10, 1 # 100, 2); (100, 2 # 100, 8); (60, 10 # 100, 1);
+          (200, 6 # 100, 5) ].
+Definition ex_tri (_ : list pt) : list triangle :=
+  [ (0%N, 1%N, 2%N); (1%N, 3%N, 2%N) ].
+(* a pixelation offset that depends on the abscissa in pixels only *)
+Definition ex_delta (f : feat) (px x : Q) : Q :=
+  match f with
+  | Area => (1 # 1000) * (sq px / (sq px + x))
+  | Volume => (1 # 1000) * (cube px / (cube px + x))
+  end.
+Definition ex_eta (t : Q) : Q := 5 + t / 10.
+Definition ex_setup : setup := mkSetup 30 (16 # 100) (34 # 100).
+Definition ex_events : list event :=
+  [ (150, 4 # 100);
+    (45 # 2, (1 # 100) + ex_delta Area (34 # 100) (45 # 2));
+    (1000, 5 # 100) ].
+
+Example ex_lut_ok : lut_ok ex_lut.
+Proof.
+  constructor; simpl; try discriminate; try reflexivity.
+  repeat constructor.
+Qed.
+
+Example ex_setup_ok : setup_ok ex_setup.
+Proof. reflexivity. Qed.
+
+(* the first event is inside, the second sits on the first node after
+   pixelation correction and scaling (its value is the node's value times
+   the scaling factor), the third is outside (NaN) *)
+Example ex_values :
+  match route_scalar ex_tri ex_delta ex_lut ex_setup 5 ex_events with
+  | [Some e1; Some e2; None] =>
+      e2 == 2 * emod_factor 20 30 (4 # 100) (16 # 100) 15 5 /\ 0 < e1
+  | _ => False
+  end.
+Proof. vm_compute. split; reflexivity. Qed.
+
+Example ex_routes_agree :
+  exists r, route_array ex_tri ex_delta ex_lut ex_setup [5; 5; 5] ex_events = Some r
+            /\ Forall2 oqeq r (route_scalar ex_tri ex_delta ex_lut ex_setup 5 ex_events).
+Proof.
+  apply (routes_agree ex_tri ex_delta ex_lut ex_setup 5 ex_events [5; 5; 5]
+                      ex_lut_ok ex_setup_ok).
+  left. reflexivity.
+Qed.
+
+Example ex_delta_rescale lam : 0 < lam -> delta_rescale ex_delta lam.
+Proof.
+  intros Hl f px x. pose proof (pos_neq0 _ Hl) as Nl.
+  destruct f; unfold ex_delta, pw, sq, cube.
+  - destruct (Qeq_dec (px * px + x) 0) as [E|N].
+    + assert (E' : lam * px * (lam * px) + x * (lam * lam) == 0).
+      { assert (X : lam * px * (lam * px) + x * (lam * lam)
+                    == (px * px + x) * (lam * lam)) by ring.
+        rewrite X, E. ring. }
+      unfold Qdiv. rewrite E', E. reflexivity.
+    + field. split; auto. intros E. apply N.
+      assert (X : lam * px * (lam * px) + x * (lam * lam)
+                  == (px * px + x) * (lam * lam)) by ring.
+      rewrite X in E. apply Qmult_integral in E. destruct E as [E|E]; auto.
+      apply Qmult_integral in E. tauto.
+  - destruct (Qeq_dec (px * px * px + x) 0) as [E|N].
+    + assert (E' : lam * px * (lam * px) * (lam * px) + x * (lam * lam * lam) == 0).
+      { assert (X : lam * px * (lam * px) * (lam * px) + x * (lam * lam * lam)
+                    == (px * px * px + x) * (lam * lam * lam)) by ring.
+        rewrite X, E. ring. }
+      unfold Qdiv. rewrite E', E. reflexivity.
+    + field. split; auto. intros E. apply N.
+      assert (X : lam * px * (lam * px) * (lam * px) + x * (lam * lam * lam)
+                  == (px * px * px + x) * (lam * lam * lam)) by ring.
+      rewrite X in E. apply Qmult_integral in E. destruct E as [E|E]; auto.
+      apply Qmult_integral in E. destruct E as [E|E]; [|tauto].
+      apply Qmult_integral in E. tauto.
+Qed.
+
+Example ex_inside :
+  inside (1 # 2, 1 # 2) (0, 0) (1, 0) (0, 2) = true
+  /\ inside (2, 2) (0, 0) (1, 0) (0, 2) = false
+  /\ inside (1 # 2, 0) (0, 0) (0, 2) (1, 0) = true.
+Proof. vm_compute. auto. Qed.
+
+Example ex_vertex_property :
+  vertex_property (normq 10 200, normq (1 # 100) (10 # 100)) 2
+                  (normalize_nodes (l_nodes ex_lut)) (ex_tri []).
+Proof.
+  intros t a b c Hin T Hc. simpl in Hin.
+  destruct Hin as [<-|[<-|[]]]; vm_compute in T; inversion T; subst.
+  - left. split; reflexivity.
+  - vm_compute in Hc. discriminate.
+Qed.
+
+Example ex_broadcast_error :
+  get_emodulus ex_tri ex_delta ex_eta ex_lut ex_setup (MTempArray [23; 24]) ex_events
+  = None.
+Proof. reflexivity. Qed.
